@@ -87,6 +87,7 @@ func refMediaType(s string) mediaType {
 	}
 	m.Name = name
 	m.WellFormed = true
+	seen := map[string]bool{}
 	for _, p := range parts[1:] {
 		m.HasParams = true
 		p = strings.Trim(p, " \t")
@@ -94,6 +95,12 @@ func refMediaType(s string) mediaType {
 		if eq <= 0 || !isToken(p[:eq]) {
 			m.WellFormed = false
 			return m
+		}
+		if k := strings.ToLower(p[:eq]); seen[k] {
+			m.WellFormed = false // the same parameter twice: broken syntax
+			return m
+		} else {
+			seen[k] = true
 		}
 		val := p[eq+1:]
 		if strings.HasPrefix(val, `"`) {
